@@ -34,6 +34,11 @@ type Case struct {
 	DataWithEOF   bool   `json:"data_with_eof"`
 	Drain         []int  `json:"drain"`
 	ZeroEvery     int    `json:"zero_every,omitempty"` // every n-th source read returns (0, nil)
+	// Chain: the source handed to the loader is itself the stream returned by an earlier load (loader ChainLoader)
+	// of the same input, of which ChainSkip bytes have already been read - images that follow one another in one
+	// stream.  The "original source" is then what that stream still had to give.
+	ChainLoader string `json:"chain_loader,omitempty"`
+	ChainSkip   int    `json:"chain_skip,omitempty"`
 	Loader        string `json:"loader"`
 	// Std > 0: the source is a *bytes.Reader (seekable, WriterTo, ReaderAt) holding Std-1 unrelated bytes in
 	// front of the input and already advanced past them, as when an image is embedded in a container
@@ -172,6 +177,21 @@ func check(c Case) (kind, what string, nt bool) {
 		if n := remaining(); n >= 0 {
 			s.Pos = int64(len(c.Data)) - int64(n)
 		}
+	} else if c.ChainLoader != "" {
+		first := ld.Run(c.ChainLoader, s)
+		if first.Panic != "" || first.Stream == nil {
+			return c.ChainLoader + "/panic", "first load of a chain: " + first.Panic + " / nil stream", true
+		}
+		skip := c.ChainSkip
+		if skip > len(c.Data) {
+			skip = len(c.Data)
+		}
+		head := make([]byte, skip)
+		if n, err := io.ReadFull(first.Stream, head); err != nil || !bytes.Equal(head[:n], c.Data[:skip]) {
+			return c.ChainLoader + "/bytes", fmt.Sprintf("first %d bytes of the first stream of a chain wrong (read %d, err %v)", skip, n, err), true
+		}
+		c.Data = c.Data[skip:] // what the second loader's source still has to deliver
+		o = ld.Run(c.Loader, first.Stream)
 	} else if c.Seekable {
 		o = ld.Run(c.Loader, src.Seekable{Source: s})
 	} else {
@@ -294,7 +314,7 @@ func TestC07(t *testing.T) {
 		fmt.Println("REPLAY case passed")
 		return
 	}
-	ev.Rule("seeds: the repository's test images and profile, grammar-built valid files of all three formats with and without ICC, corrupted variants (field set to hostile value, chunk dropped/duplicated, type changed), empty input, random bytes, signature-only prefixes. For every seed <= 8 KiB EVERY prefix length is used as truncation point and EVERY byte position as sticky-fault position (error alone, and error together with the preceding data); for larger seeds every structural boundary +-1, every multiple of 4096 +-1 and (stride 7 quick / 1 thorough) the first 12 KiB. Source schedules: all-at-once, 1, 7, 4096, mixed list, some with every 2nd/3rd read returning (0, nil) (one per position by hash in quick, all in thorough); the returned stream is drained with read sizes 32768 / 1 / mixed / 4096, with zero-length reads in between, and through io.Copy / io.ReadAll / bufio.WriteTo / ReadByte; four loaders; plus rapid-generated files with rapid schedules. non-trivial = distinct case whose truncation lies strictly inside a structure, or whose fault position had been reached before Load returned, or whose source delivers short reads")
+	ev.Rule("seeds: the repository's test images and profile, grammar-built valid files of all three formats with and without ICC, corrupted variants (field set to hostile value, chunk dropped/duplicated, type changed), empty input, random bytes, signature-only prefixes. For every seed <= 8 KiB EVERY prefix length is used as truncation point and EVERY byte position as sticky-fault position (error alone, and error together with the preceding data); for larger seeds every structural boundary +-1, every multiple of 4096 +-1 and (stride 7 quick / 1 thorough) the first 12 KiB. Source schedules: all-at-once, 1, 7, 4096, mixed list, some with every 2nd/3rd read returning (0, nil) (one per position by hash in quick, all in thorough); the returned stream is drained with read sizes 32768 / 1 / mixed / 4096, with zero-length reads in between, and through io.Copy / io.ReadAll / bufio.WriteTo / ReadByte; four loaders; plus rapid-generated files with rapid schedules, a sixth of them handed over as the partly read stream of an earlier load. non-trivial = distinct case whose truncation lies strictly inside a structure, or whose fault position had been reached before Load returned, or whose source delivers short reads")
 	ev.Assume("faults are sticky (a failed source keeps failing); sources never return (0, nil)")
 	var inputs []input
 	stride := ev.Pick(7, 1)
@@ -476,6 +496,10 @@ func TestC07(t *testing.T) {
 			c.Drain = []int{rapid.IntRange(-4, -1).Draw(rt, "drainmode")}
 		}
 		c.Seekable = c.Std == 0 && rapid.IntRange(0, 3).Draw(rt, "seekable") == 0
+		if c.Std == 0 && !c.Seekable && c.FaultAt < 0 && rapid.IntRange(0, 5).Draw(rt, "chain") == 0 {
+			c.ChainLoader = rapid.SampledFrom(ld.Names).Draw(rt, "chainloader")
+			c.ChainSkip = rapid.SampledFrom([]int{0, 1, 8, 75, 1000, 4095, 4096, 4097, 5000, 1 << 20}).Draw(rt, "chainskip")
+		}
 		if c.Std == 0 && rapid.IntRange(0, 4).Draw(rt, "zeroreads") == 0 {
 			c.ZeroEvery = rapid.SampledFrom([]int{2, 3, 7}).Draw(rt, "zeroevery")
 		}
